@@ -225,6 +225,15 @@ func (w *World) Apply(op M) (line M) {
 	}()
 	line["panic"] = ""
 	dp0 := dpanics.Load()
+	w.dispatch(op, line)
+	w.settle()
+	line["unsettled"] = w.unsettled
+	line["dpanic"] = dpanics.Load() - dp0
+	return line
+}
+
+// dispatch translates one operation into SI requests / harness calls against the core
+func (w *World) dispatch(op M, line M) {
 	switch gs(op, "op") {
 	case "noop":
 	case "addNode":
@@ -346,10 +355,6 @@ func (w *World) Apply(op M) (line M) {
 	default:
 		line["unknown"] = true
 	}
-	w.settle()
-	line["unsettled"] = w.unsettled
-	line["dpanic"] = dpanics.Load() - dp0
-	return line
 }
 
 func trimStack(s string) string {
